@@ -3,7 +3,8 @@
 B2: Elegant / Bmad dispatch tables regenerated from the converters' if/elif chains must equal the reviewed tables;
     the converters' continuation passes regenerated from source must be the modelled ones.
 B1: NX drift filling (convert_lattice_to_cheetah) vs CheetahModel/Nx.lean (nx_corr.py);
-    text front end (read_clean_lines, merge_delimiter_continued_lines, rpn) vs CheetahModel/Text.lean (text_corr.py).
+    text front end (read_clean_lines, merge_delimiter_continued_lines, rpn) vs CheetahModel/Text.lean (text_corr.py);
+    statement level (parse_lines handlers, wild cards, line expansion by convert_element) vs CheetahModel/Namelist.lean (nml_corr.py).
 F : random abstract lattices rendered in many spellings, imported, compared with a reference denotation (fals/C13.py).
 """
 from __future__ import annotations
@@ -26,6 +27,8 @@ META = {
 def run(ctx) -> None:
     from text_corr import run_text_correspondence
     run_text_correspondence(ctx, "C13", 300 if ctx.tier == "quick" else 4000)
+    from nml_corr import run_nml_correspondence
+    run_nml_correspondence(ctx, "C13", 250 if ctx.tier == "quick" else 5000)
     if F is not None:
         from nx_corr import run_nx_correspondence
         run_nx_correspondence(ctx, "C13", 120 if ctx.tier == "quick" else 2000)
